@@ -50,6 +50,8 @@ Step ==
             IF holder[k] = a /\ ~e.v THEN Fail("C09.available_false_for_owner")
             ELSE IF holder[k] # 0 /\ holder[k] # a /\ e.v THEN Fail("C09.available_true_while_held")
             ELSE IF holder[k] = 0 /\ asked[k] = <<>> /\ ~e.v THEN Fail("C09.available_false_when_free")
+            \* released to a waiting requester that has not resumed yet: the lock is handed over, not free
+            ELSE IF holder[k] = 0 /\ asked[k] # <<>> /\ ~InSeq(asked[k], a) /\ e.v THEN Fail("C09.available_true_during_handoff")
             ELSE Skip
        [] e.e = "end" ->
             IF \E k \in Locks : holder[k] = a THEN Fail("C09.ended_inside_block") ELSE Skip
